@@ -81,6 +81,10 @@ fn alphabet(kind: &str) -> Vec<Sym> {
     if kind == "full" {
         a.extend([Sym::HAndThen, Sym::LetTup, Sym::Bin]);
     }
+    if kind == "wrap" {
+        // wrapper balance over LONG sequences: one wrapper-capable operator, `~`, `>>>`, `<<<`, the comma
+        a = vec![Sym::X, Sym::Op(0), Sym::Tilde, Sym::Wrap, Sym::Unwrap, Sym::Comma];
+    }
     if kind == "opts" {
         a = vec![Sym::X, Sym::Op(0), Sym::Comma, Sym::HThen];
         for i in 0..4 {
